@@ -37,7 +37,9 @@ def r1_totality(ctx, A):
                           where=F.loc(s.span), detail={"paths": s.paths, "failed": s.failed[:3]})
         else:
             ctx.ok("C03.R1", key, detail={"paths": s.paths, "how": sorted(s.how)}, where=F.loc(s.span))
-    ctx.floor("C03.R1", n, 3, what="panic-capable sites in the range parser")
+    # (the number of panic-capable sites is not a quality of the parser: a rewrite with fewer slicing operations has fewer)
+    ctx.floor("C03.R1", n, 1, what="panic-capable sites in the range parser")
+    ctx.floor("C03.R1.paths", len(A["outs"]), 10, what="paths of the range parser analysed")
     # completeness: every static site in the parser was visited
     stat = CEN.static_sites(ctx.facts, [A["fn"]])
     visited = {(s.fn, s.bb) for s in sites.values()}
@@ -170,15 +172,14 @@ def r3_digits(ctx, A):
                 if e["k"] != "call":
                     continue
                 nm = e["callee"].get("path", "")
-                # Iterator::all(|b| b.is_ascii_digit()) == true over the bytes of the same substring
-                if nm.endswith("Iterator::all") or nm.endswith("Iterator::any") or nm.endswith("Iterator::position"):
-                    clo = e["args"][1] if len(e["args"]) > 1 else None
-                    if clo is not None and closure_checks_digits(ctx.facts, clo):
+                # a digits-only test of the bytes of the same substring: all(p) == true with p = is-ASCII-digit, or any(q) == false
+                # with q = is-not-ASCII-digit (the predicate's truth table over all 256 bytes is computed from its MIR)
+                if nm.endswith("Iterator::all") or nm.endswith("Iterator::any"):
+                    from .common import all_digits_guard
+                    if all_digits_guard(ctx, o, e) == "pass":
                         it = e["snap"][0] if e["args"][0][0] == "ref" else e["args"][0]
                         if seq_mentions(it, seq):
-                            r = e.get("result")
-                            if nm.endswith("::all") and o.cons.known.get(r) == 1:
-                                guarded = True
+                            guarded = True
                 # first byte is an ASCII digit (u64::from_str only deviates from 1*DIGIT by a leading '+')
                 if nm.endswith("is_ascii_digit"):
                     r = e.get("result")
@@ -288,7 +289,14 @@ def r4_tokenisation(ctx, A):
             bad.append("the range-spec is not the result of trimming a list element")
         else:
             arr = tr[-1]["args"][1]
-            chars = sorted(v[1] for _, v in arr[4]) if is_agg(arr) else None
+            if is_agg(arr) and arr[1] == "array":
+                chars = sorted(v[1] for _, v in arr[4])
+            elif is_const(arr):
+                chars = [arr[1]]
+            else:
+                from .common import pred_true_set
+                ts_ = pred_true_set(ctx, arr)      # a closure pattern: the characters on which it answers true
+                chars = sorted(ts_) if ts_ is not None else None
             if chars != [9, 32]:
                 bad.append("the characters trimmed after a comma are %s, not SP and HTAB" % chars)
             src = tr[-1]["snap"][0] if tr[-1]["args"][0][0] == "ref" else tr[-1]["args"][0]
